@@ -321,16 +321,10 @@ def run(prog: Program, res: Result) -> None:  # noqa: PLR0912, PLR0915
         res.ok("C10.R2", f"{emg.file}:{emg.node.lineno} Environment.make_globals", what, "later keys win; both returns build a new dict")
     else:
         res.fail("C10.R2", file=emg.file, line=emg.node.lineno, qualname="Environment.make_globals", construct=f"returns {[norm(r) for r in rets]}", message="environment/template globals are not merged with template globals taking priority into a fresh dict", what=what)
-    # from_string / get_template route globals through make_globals; Template.__init__ stores them
-    for name in ("from_string", "get_template", "get_template_async"):
-        m = env.methods.get(name)
-        if m is None:
-            raise AnalysisError(f"Environment.{name} vanished")
-        what = f"Environment.{name} passes self.make_globals(globals)"
-        if "self.make_globals(globals)" in norm(m.node, 5000):
-            res.ok("C10.R2", f"{m.file}:{m.node.lineno} Environment.{name}", what, "globals merged with environment globals")
-        else:
-            res.fail("C10.R2", file=m.file, line=m.node.lineno, qualname=f"Environment.{name}", construct=f"{name} does not call make_globals", message="template globals bypass the environment-globals merge", what=what)
+    from checks.shared import check_globals_merged
+
+    check_globals_merged(prog, res, "C10.R2")
+
     # BaseLoader.load passes overlay_data=matter
     for name in ("load", "load_async"):
         m = prog.cls("liquid2.loader.BaseLoader").methods.get(name)
